@@ -12,6 +12,7 @@ Operations
     ["rm", name]                          gfa.rm(name)
     ["rm_i", index]                       gfa.rm(line instance)   (index into model.recs)
     ["disc", index]                       line.disconnect()
+    ["readd", index, how]                 gfa.rm(line) | line.disconnect(), then gfa.add_line(the same object)
     ["rename", index, new]                line.name = new
     ["set_tag", index, name, type, val]   line.set_datatype + line.set (val None = delete)
 """
@@ -47,6 +48,8 @@ class GenState:
         self.fresh = list(FRESH)
         self.slen = dict(PLANNED_LEN)
         self.seq = {}
+        self.group_bias = 0.0  # extra probability that a new GFA2 record is a group line
+        self.was_pending = set()  # identifiers that were mentioned before they were defined
 
     def names(self):
         return set(self.model.names())
@@ -88,6 +91,15 @@ def pick_segment(st, r, p_undefined=0.15):
     return gen.choice(r, cands or segs or POOL["S"])
 
 
+def pick_pair(st, r):
+    """Two segments for a line that joins two; now and then the same one (circular line),
+    also when it is not defined yet."""
+    a = pick_segment(st, r)
+    if gen.chance(r, 0.12):
+        return a, a
+    return a, pick_segment(st, r)
+
+
 def new_segment(st, r, name, tags=True):
     if name in st.seq:
         st.slen[name] = len(st.seq[name])
@@ -109,7 +121,7 @@ def new_segment(st, r, name, tags=True):
 
 def new_link(st, r, tags=True):
     for _ in range(6):
-        f, t = pick_segment(st, r), pick_segment(st, r)
+        f, t = pick_pair(st, r)
         fo, to = gen.choice(r, "+-"), gen.choice(r, "+-")
         ek = M.ends_key(f, fo, t, to)
         pol = st.ov_policy.get(ek)
@@ -137,7 +149,8 @@ def new_containment(st, r):
         n = st.free_name("ID", r, allow_undefined=False)
         if n:
             tg.append(["ID", "Z", n])
-    return ["C", [pick_segment(st, r), gen.choice(r, "+-"), pick_segment(st, r), gen.choice(r, "+-"),
+    a, b = pick_pair(st, r)
+    return ["C", [a, gen.choice(r, "+-"), b, gen.choice(r, "+-"),
                   str(r.randint(0, 9)), gen.gen_overlap_gfa1(r)], tg]
 
 
@@ -146,7 +159,12 @@ def new_path(st, r):
     if pn is None:
         return None
     n = r.randint(1, 4)
-    walk = [(pick_segment(st, r, 0.1), gen.choice(r, "+-")) for _ in range(n)]
+    walk = []
+    for _ in range(n):
+        if walk and gen.chance(r, 0.25):
+            walk.append((gen.choice(r, walk)[0], gen.choice(r, "+-")))  # a segment visited again
+        else:
+            walk.append((pick_segment(st, r, 0.1), gen.choice(r, "+-")))
     circular = n >= 2 and gen.chance(r, 0.2)
     steps = list(zip(walk, walk[1:])) + ([(walk[-1], walk[0])] if circular else [])
     idx = st.model.link_index()
@@ -184,7 +202,7 @@ def new_path(st, r):
 
 
 def new_edge(st, r):
-    s1, s2 = pick_segment(st, r), pick_segment(st, r)
+    s1, s2 = pick_pair(st, r)
     b1, e1, _k = gen.interval(r, seg_len(st, s1))
     b2, e2, _k = gen.interval(r, seg_len(st, s2))
     eid = "*"
@@ -198,7 +216,8 @@ def new_gap(st, r):
     gid = "*"
     if gen.chance(r, 0.7):
         gid = st.free_name("G", r) or "*"
-    return ["G", [gid, pick_segment(st, r) + gen.choice(r, "+-"), pick_segment(st, r) + gen.choice(r, "+-"),
+    a, b = pick_pair(st, r)
+    return ["G", [gid, a + gen.choice(r, "+-"), b + gen.choice(r, "+-"),
                   str(r.randint(-20, 200)), "*" if gen.chance(r, 0.4) else str(r.randint(0, 50))],
             gen.gen_tags(r, "gfa2", "G", True, maxn=1)]
 
@@ -219,10 +238,11 @@ def _rank(name):
     return (-1, 0)
 
 
-def new_group(st, r, kind):
-    pid = "*"
-    if gen.chance(r, 0.75):
-        pid = st.free_name(kind, r) or "*"
+def new_group(st, r, kind, pid=None):
+    if pid is None:
+        pid = "*"
+        if gen.chance(r, 0.75):
+            pid = st.free_name(kind, r) or "*"
     defined = st.names()
     # items: defined names or pool names of a type that may stand there; only strictly
     # lower-ranked groups, so nesting is a DAG whatever the order of definition
@@ -234,6 +254,8 @@ def new_group(st, r, kind):
                 continue
             if pid == "*" and k == kind:
                 continue
+            if n == pid:
+                continue  # a group never mentions itself (a renamed group may carry any pool's name)
             if n in defined or gen.chance(r, 0.08):
                 cands.append(n)
     # never an identifier that is defined as a record of another type than its pool
@@ -261,6 +283,25 @@ def new_group(st, r, kind):
                 return None
             items.append(gen.choice(r, nong))
     return [kind, [pid, " ".join(items)], gen.gen_tags(r, "gfa2", kind, True, maxn=3)]
+
+
+def continue_group(st, r):
+    """A further line of an existing named group (GFA2: groups may be defined in several
+    lines with the same identifier): new items, tags that the group does not have yet."""
+    cands = [x for x in st.model.recs if x.rt in ("O", "U") and x.pos[0] != "*"]
+    if not cands:
+        return None
+    g = gen.choice(r, cands)
+    mentioned = set(m_[0] for x in st.model.recs for m_ in M.mentions(x))
+    inner = [x for x in cands if x.pos[0] in mentioned]
+    if inner and gen.chance(r, 0.6):
+        g = gen.choice(r, inner)  # a group which is an item of another group
+    line = new_group(st, r, g.rt, pid=g.pos[0])
+    if line is None:
+        return None
+    have = set(t[0] for t in g.tags)
+    line[2] = [t for t in line[2] if t[0] not in have]
+    return line
 
 
 def duplicate_record(st, r):
@@ -292,6 +333,8 @@ def new_record(st, r):
             return new_path(st, r)
         return ["#", [" c%d" % r.randint(0, 9)], []]
     k = r.randrange(14)
+    if st.group_bias and st.model.segments() and gen.chance(r, st.group_bias):
+        k = r.randint(8, 11)
     if k < 3 or not st.model.segments():
         n = st.free_name("S", r)
         return new_segment(st, r, n) if n else None
@@ -301,6 +344,10 @@ def new_record(st, r):
         return new_gap(st, r)
     if k < 8:
         return new_fragment(st, r)
+    if k < 12 and gen.chance(r, 0.3):
+        c = continue_group(st, r)
+        if c is not None:
+            return c
     if k < 10:
         return new_group(st, r, "O")
     if k < 12:
@@ -313,8 +360,10 @@ def new_record(st, r):
 
 def model_add(st, line):
     rec = G.Rec.from_plain(line, st.version)
-    st.model.recs.append(rec)
-    return rec
+    nm = M.name_of(rec)
+    if nm is not None and nm in st.model.undefined_mentions():
+        st.was_pending.add(nm)
+    return st.model.add(rec)
 
 
 def removable(st):
@@ -323,9 +372,10 @@ def removable(st):
 
 def gen_history(r, version, opts=None):
     o = {"steps": (4, 25), "p_rm": 0.25, "p_rename": 0.1, "p_tag": 0.0, "close": False,
-         "load": 0.5, "instance": 0.3}
+         "load": 0.5, "instance": 0.3, "p_readd": 0.04, "group_bias": 0.0}
     o.update(opts or {})
     st = GenState(version)
+    st.group_bias = o["group_bias"] if version == "gfa2" else 0.0
     ops = []
     if gen.chance(r, o["load"]):
         # start from a small valid document over the same pools
@@ -352,8 +402,21 @@ def gen_history(r, version, opts=None):
     for _ in range(nsteps):
         x = r.random()
         rem = removable(st)
+        if rem and gen.fair(r, o["p_readd"]):
+            # the same line object leaves the Gfa and comes back
+            i = gen.choice(r, rem)
+            rec = st.model.recs[i]
+            ops.append(["readd", i, gen.choice(r, ["rm", "disc"])])
+            st.model.remove(rec)
+            st.model.add(rec)
+            continue
         if x < o["p_rm"] and rem:
             i = gen.choice(r, rem)
+            if gen.chance(r, 0.4):
+                # rather a record that something depends on (the cascade is what is tested)
+                dep = [j for j in rem if st.model.dependants(st.model.recs[j])]
+                if dep:
+                    i = gen.choice(r, dep)
             rec = st.model.recs[i]
             nm = M.name_of(rec)
             how = r.randrange(3)
@@ -370,6 +433,9 @@ def gen_history(r, version, opts=None):
             if not cands:
                 continue
             i = gen.choice(r, cands)
+            late = [j for j in cands if M.name_of(st.model.recs[j]) in st.was_pending]
+            if late and gen.chance(r, 0.4):
+                i = gen.choice(r, late)  # a line that replaced a placeholder
             rec = st.model.recs[i]
             kind = rec.rt if rec.rt in POOL else "S"
             new = st.free_name(kind, r, allow_undefined=False)
@@ -380,6 +446,8 @@ def gen_history(r, version, opts=None):
                 continue
             old = M.name_of(rec)
             st.model.rename(rec, new)
+            if old in st.was_pending:
+                st.was_pending.add(new)
             if rec.rt == "S":
                 st.seq.pop(new, None)  # a stale plan of an earlier segment of that name
                 st.slen[new] = seg_len(st, old)
@@ -525,7 +593,7 @@ class Runner:
                 self.gfa.add_line(gfapy.Line(text, version=self.version, vlevel=self.vlevel))
             else:
                 self.gfa.add_line(text)
-            self.model.recs.append(rec)
+            self.model.add(rec)
         elif kind == "rm":
             rec = self.model.by_name(op[1])
             self._note_removed(rec)
@@ -542,6 +610,19 @@ class Runner:
             else:
                 line.disconnect()
             self.model.remove(rec)
+        elif kind == "readd":
+            rec = self.model.recs[op[1]]
+            line = self.find_line(rec)
+            if line is None:
+                raise LookupError("model record %r has no line in the Gfa" % rec.text())
+            self._note_removed(rec, but=rec)
+            if op[2] == "rm":
+                self.gfa.rm(line)
+            else:
+                line.disconnect()
+            self.model.remove(rec)
+            self.gfa.add_line(line)
+            self.model.add(rec)
         elif kind == "rename":
             rec = self.model.recs[op[1]]
             line = self.find_line(rec)
@@ -568,8 +649,10 @@ class Runner:
         else:
             raise ValueError("unknown op %r" % (op,))
 
-    def _note_removed(self, rec):
+    def _note_removed(self, rec, but=None):
         for g in self.model.cascade(rec):
+            if g is but:
+                continue
             l = self.find_line(g)
             if l is not None:
                 self.removed.append(l)
